@@ -22,6 +22,7 @@ type goroutine struct {
 	depth    int
 	curFrame *frame
 	locks    map[*Value]bool
+	wlocks   map[*Value]bool // locks held for writing
 }
 
 type killGoroutine struct{}
@@ -29,6 +30,7 @@ type killGoroutine struct{}
 type lockState struct {
 	holder  *goroutine
 	readers map[*goroutine]int
+	waitW   int // writers waiting for the lock: new readers queue behind them (sync.RWMutex)
 }
 
 type condWaiter struct {
@@ -57,7 +59,7 @@ var maxPreempts = 1
 func (in *Interp) ensureSched() *scheduler {
 	if in.sched == nil {
 		s := &scheduler{in: in, locks: map[*Value]*lockState{}, conds: map[*Value][]*condWaiter{}, accesses: map[interface{}]*accessInfo{}}
-		g := &goroutine{id: 0, resume: make(chan struct{}, 1), locks: map[*Value]bool{}}
+		g := &goroutine{id: 0, resume: make(chan struct{}, 1), locks: map[*Value]bool{}, wlocks: map[*Value]bool{}}
 		s.gs = []*goroutine{g}
 		s.cur = g
 		s.mainG = g
@@ -191,7 +193,7 @@ func (in *Interp) goStmt(fr *frame, instr *ssa.Go, fn Value, args []Value) {
 	if len(s.gs) > 8 {
 		in.abort("unwinding: more than 8 goroutines")
 	}
-	g := &goroutine{id: len(s.gs), resume: make(chan struct{}, 1), locks: map[*Value]bool{}}
+	g := &goroutine{id: len(s.gs), resume: make(chan struct{}, 1), locks: map[*Value]bool{}, wlocks: map[*Value]bool{}}
 	s.gs = append(s.gs, g)
 	s.wg.Add(1)
 	go func() {
@@ -508,7 +510,8 @@ func (in *Interp) mutexLock(m *Value, read bool) {
 	g := s.cur
 	free := func() bool {
 		if read {
-			return l.holder == nil
+			// a pending writer blocks new readers, also a reader that already holds the lock
+			return l.holder == nil && l.waitW == 0
 		}
 		return l.holder == nil && len(l.readers) == 0
 	}
@@ -519,12 +522,19 @@ func (in *Interp) mutexLock(m *Value, read bool) {
 		if l.holder == g || (!read && l.readers[g] > 0 && len(l.readers) == 1 && l.holder == nil) {
 			s.raiseOnMain(deadlockPanic{"deadlock: goroutine locks a mutex it already holds"})
 		}
+		if !read {
+			l.waitW++
+		}
 		s.yield(free, "mutex lock")
+		if !read {
+			l.waitW--
+		}
 	}
 	if read {
 		l.readers[g]++
 	} else {
 		l.holder = g
+		g.wlocks[m] = true
 	}
 	g.locks[m] = true
 }
@@ -554,6 +564,7 @@ func (in *Interp) mutexUnlock(m *Value, read bool) {
 			in.rtPanic("sync: unlock of unlocked mutex")
 		}
 		l.holder = nil
+		delete(g.wlocks, m)
 	}
 	if l.holder == nil && len(l.readers) == 0 {
 		delete(g.locks, m)
@@ -655,14 +666,19 @@ func (in *Interp) noteLoc(p interface{}, write bool) {
 		a = &accessInfo{gs: map[int]bool{}}
 		s.accesses[p] = a
 	}
+	// a write is protected only by locks held for writing; a read by locks held in any mode
+	held := g.locks
+	if write {
+		held = g.wlocks
+	}
 	if a.lockset == nil {
 		a.lockset = map[*Value]bool{}
-		for l := range g.locks {
+		for l := range held {
 			a.lockset[l] = true
 		}
 	} else {
 		for l := range a.lockset {
-			if !g.locks[l] {
+			if !held[l] {
 				delete(a.lockset, l)
 			}
 		}
